@@ -233,6 +233,9 @@ def simplify_math_iterators(source: str) -> str:
     )
 
     for node in core.walk(root, template):
+        if node.func.id != "sum":
+            continue  # The closed forms below are sums; len() of the same argument is another number
+
         arg = node.args[0]
         if core.match_template(arg, ast.Call(func=ast.Name(id="range"))):
             if any((node is not arg for node in core.walk(arg, (ast.Attribute, ast.Call)))):
